@@ -5,41 +5,56 @@ import shutil
 import tempfile
 import threading
 
-from verif import build, proc
+from verif import build, core, proc
 from verif.gen import colls as G
+from verif.gen import colls_findings as F
 
 META = {
     "id": "C29", "engine": "E5 smpi programs", "engine_path": "harness/mpi/coll_check.c",
-    "engine_kind": "self-checking MPI C program run under the real smpirun/SMPI, one run per (collective, algorithm, np, layout)",
+    "engine_kind": "self-checking MPI C program run under the real smpirun/SMPI, one run per (collective, algorithm, np, placement)",
     "level": "exploration",
     "technique": "in-program reference from the MPI definitions, byte-exact image comparison of every buffer (guards, holes of "
-                 "derived types and send buffers included) on every rank; crashes attributed by isolating single cases",
+                 "derived types and send buffers included) on every rank; crashes attributed by isolating single cases; every "
+                 "failure classified against a table of root causes (predicate over np/placement/count/datatype/op/mode)",
     "level_text": "Every (collective, algorithm) pair listed by `smpirun -help-coll`, the four single-implementation collectives "
                   "(gatherv, scatterv, scan, alltoallw) and the sixteen non-blocking collectives are run on communicators of 1..17 "
-                  "ranks (quick: a fixed sample of sizes) under several rank placements. Inside a run the harness loops over roots, "
-                  "counts {0,1,2,np-1,np,np+1, two large non-multiples of np}, datatypes {int, double, vector with a hole, "
-                  "2int/double_int}, operators {SUM,PROD,MAX,MIN,BXOR,MAXLOC,MINLOC,user commutative}, MPI_IN_PLACE, NULL "
-                  "root-only arguments, late ranks, back-to-back calls without barrier, and compares whole buffer images "
-                  "(64-byte guards around them) with the image the MPI definition gives. A failing run is reduced to a tuple "
-                  "(collective, algorithm, np-class, layout-class, count-class, datatype-class, mode, failure kind).",
+                  "ranks under several rank placements (thorough: 39 configurations per algorithm, quick: 2 of them drawn by the "
+                  "seed). Inside a run the harness loops over roots, counts {0,1,2,np-1,np,np+1, two large non-multiples of np}, "
+                  "datatypes {int, double, vector with a hole, 2int/double_int}, operators {SUM,PROD,MAX,MIN,BXOR,MAXLOC,MINLOC,"
+                  "user commutative}, MPI_IN_PLACE, NULL root-only arguments, late ranks, back-to-back calls without barrier, and "
+                  "compares whole buffer images (64-byte guards around them) with the image the MPI definition gives.",
     "level_note": "Hooks flavour only (SMPI's dlopen privatisation under ASan reports inside the sanitizer's sigaltstack "
                   "interceptor). Commutative operators only (as in the statement); non-commutative ones, MPI_Exscan, "
                   "inter-communicators and persistent collectives are not driven. An abort whose message states a precondition "
                   "of the algorithm that is indeed unmet (e.g. 'can't be used with non power of two number of processes') is "
-                  "counted as a refusal, not as a violation. A run stopped by the wall-clock watchdog is inconclusive.",
+                  "counted as a refusal, not as a violation. A run stopped by the wall-clock watchdog is inconclusive. A run in "
+                  "which every rank compared every buffer and SimGrid then reports communications that nobody completed is "
+                  "recorded (units_leaving_communications_behind) but is not a violation of this property.",
     "rule": "case = one collective call (collective, mode, root, count pattern, count, datatype, operator, data seed, late rank); "
-            "non-trivial = distinct (collective, algorithm, np-class>1, layout-class, count-class other than 0, datatype-class, mode) "
-            "whose cases were compared on every rank of a run that reached its end",
-    "assumptions": ["only the listed count/datatype/operator values are driven; quick tier samples the communicator sizes",
+            "non-trivial = distinct (collective, algorithm, np-class>1, placement-class, count-class other than 0, datatype-class, "
+            "mode) whose cases were compared on every rank of a run that reached its end",
+    "assumptions": ["only the listed count/datatype/operator values are driven; the quick tier visits 2 of the 39 (size, placement) "
+                    "configurations of each algorithm per seed (sizes <= 8) with a stratified sample of 96 calls per collective",
                     "the simulated platform is one homogeneous cluster; placements: one rank per host, blocks of 2 or 4 ranks per "
-                    "host, cyclic over 2 or 3 hosts, and a communicator with reversed rank order"],
+                    "host, cyclic over 2 or 3 hosts, and a communicator with reversed rank order",
+                    "cases in the class of a listed root cause (gen/colls_findings.py) are run apart from the others; of the "
+                    "classes that crash only a few representatives are run"],
     "ready": False,
 }
 
-QUICK_CONFIGS = [(1, "flat"), (2, "flat"), (3, "flat"), (5, "cyc2"), (6, "blk2"), (8, "flat")]
-WATCHDOG = 240
-ISOLATED_WATCHDOG = 120
+WATCHDOG = 300
+ISOLATED_WATCHDOG = 150
 MAX_RERUNS = 10
+AUDIT = bool(os.environ.get("C29_AUDIT"))
+CASELOG = os.environ.get("C29_CASELOG")      # development aid: one line per evaluated case: unit np layout | case | ok or kind
+_caselog_lock = threading.Lock()
+
+
+def caselog(unit, np, layout, case, status):
+    if CASELOG:
+        with _caselog_lock:
+            with open(CASELOG, "a") as f:
+                f.write("%s %d %s | %s | %s\n" % (uname(unit), np, layout, G.case_line(case), status))
 
 
 class Env:
@@ -81,12 +96,10 @@ def all_units(env):
     res = proc.run([env.smpirun, "-help-coll"], timeout=120)
     pairs = G.parse_help_coll(res.out + "\n" + res.err)
     if len(pairs) < 100:
-        from verif import core
         raise core.HarnessFailure("smpirun -help-coll lists only %d pairs: %s" % (len(pairs), res.brief()))
     units = []
     for coll, algo in pairs:
         if coll not in G.TABLE_CALLS:
-            from verif import core
             raise core.HarnessFailure("collective %s of -help-coll is unknown to the generator" % coll)
         units.append((coll, algo, G.TABLE_CALLS[coll], "blocking"))
     for coll in G.FIXED:
@@ -94,6 +107,10 @@ def all_units(env):
     for coll in G.NBC:
         units.append(("i" + coll, "nbc", [coll], "nbc"))
     return units
+
+
+def uname(unit):
+    return "%s/%s" % (unit[0], unit[1])
 
 
 def execute(env, unit, np, layout, cases, sync=False, timeout=WATCHDOG):
@@ -120,12 +137,6 @@ BAD_RE = re.compile(r"^BAD (\d+) rank=(\d+) kind=([\w-]+)(.*)$")
 SIG_NAMES = {11: "SIGSEGV", 8: "SIGFPE", 6: "abort", 7: "SIGBUS"}
 HEAP_RE = re.compile(r"corrupted|double free|invalid next size|invalid pointer|munmap_chunk|malloc\(\):|free\(\):|"
                      r"malloc_consolidate|realloc\(\):")
-# kinds of a run that does not reach its end (as opposed to a wrong buffer of a call that returned)
-CRASH_KINDS = ("SIGSEGV", "SIGFPE", "SIGBUS", "abort", "heap-corruption", "deadlock", "sig", "exit")
-
-
-def is_crash_kind(kind):
-    return kind.startswith(CRASH_KINDS)
 
 
 def parse(res, np):
@@ -163,7 +174,16 @@ def failure_kind(res, p):
         return SIG_NAMES.get(p["crash"][0], "sig%d" % p["crash"][0])
     if res.signal:
         return SIG_NAMES.get(res.signal, "sig%d" % res.signal)
-    return "exit%s" % res.rc
+    m = re.search(r"Execution failed with code (\d+)", (res.out or "") + err)
+    code = int(m.group(1)) if m else res.rc
+    # SimGrid's own handlers: 139 = SIGSEGV, 134 = abort; the harness' handler exits with 70 + signal
+    if code == 139:
+        return "SIGSEGV"
+    if code == 134:
+        return "abort"
+    if code is not None and 70 < code < 70 + 32:
+        return SIG_NAMES.get(code - 70, "sig%d" % (code - 70))
+    return "exit%s" % code
 
 
 def err_excerpt(res, n=6):
@@ -179,24 +199,34 @@ class Runner:
     def __init__(self, ctx, env):
         self.ctx, self.env = ctx, env
         self.leftover = set()
-        self.known_crash = {}
-        for k in getattr(ctx, "_known", []):
-            if k.get("status") != "open":
-                continue
-            pat = k.get("key") or k.get("key_glob")
-            f = pat.split(":")
-            if len(f) >= 3 and is_crash_kind(f[-1]):
-                self.known_crash.setdefault(f[1], []).append((pat, f[-1]))
+        self.audit = {}
+        self._alock = threading.Lock()
 
+    # ---- keys ------------------------------------------------------------------------------------------------------
     def key(self, unit, np, layout, case, kind):
-        return "C29:%s/%s:np=%s:lay=%s:%s:%s" % (unit[0], unit[1], G.np_class(np), G.lay_class(layout), G.case_class(case, np), kind)
+        f = F.attribute(uname(unit), np, layout, case, kind)
+        if f is not None:
+            return f.key(uname(unit))
+        return "C29:%s:np=%s:lay=%s:%s:%s" % (uname(unit), G.np_class(np), G.lay_class(layout), G.case_class(case, np), kind)
 
     def witness(self, unit, np, layout, cases):
         return {"unit": list(unit[:2]), "calls": unit[2], "variant": unit[3], "np": np, "layout": layout,
                 "cases": [G.case_line(c) for c in cases]}
 
     def what(self, unit, np, layout, case, text):
-        return "%s/%s np=%d layout=%s case [%s]: %s" % (unit[0], unit[1], np, layout, G.case_line(case), text)
+        return "%s np=%d layout=%s case [%s]: %s" % (uname(unit), np, layout, G.case_line(case), text)
+
+    def note_audit(self, unit, np, layout, case, failed):
+        if not AUDIT:
+            return
+        f = F.assign(uname(unit), np, layout, case)
+        if f is None:
+            return
+        with self._alock:
+            a = self.audit.setdefault(f.key(uname(unit)), {"failed": 0, "passed": 0, "passed_examples": []})
+            a["failed" if failed else "passed"] += 1
+            if not failed and len(a["passed_examples"]) < 6:
+                a["passed_examples"].append("np=%d %s [%s]" % (np, layout, G.case_line(case)))
 
     # ---- wrong buffers of calls that returned ----------------------------------------------------------------------
     def report_bads(self, unit, np, layout, cases, p, seen):
@@ -213,6 +243,7 @@ class Runner:
                         refused.add(idx)
                         self.ctx.count("explicit_refusals")
                     continue
+            caselog(unit, np, layout, c, kind)
             k = self.key(unit, np, layout, c, kind)
             if k in seen:
                 continue
@@ -228,21 +259,23 @@ class Runner:
         ctx.evaluation(len(cases))
         ctx.count("cases_compared", len(cases) - len(refused))
         ctx.count("bytes_compared", p["nbytes"])
-        if np > 1:
-            badidx = {b[0] for b in p["bads"]}
-            for c in cases:
-                if c["idx"] not in badidx and G.count_class(c, np) != "0":
-                    ctx.nontrivial("%s/%s:%s:%s:%s:%s" % (unit[0], unit[1], G.np_class(np), G.lay_class(layout), c["coll"],
-                                                          G.case_class(c, np)))
+        badidx = {b[0] for b in p["bads"]}
+        for c in cases:
+            self.note_audit(unit, np, layout, c, c["idx"] in badidx)
+            if c["idx"] not in badidx:
+                caselog(unit, np, layout, c, "refused" if c["idx"] in refused else "ok")
+            if np > 1 and c["idx"] not in badidx and G.count_class(c, np) != "0":
+                ctx.nontrivial("%s:%s:%s:%s:%s" % (uname(unit), G.np_class(np), G.lay_class(layout), c["coll"],
+                                                   G.case_class(c, np)))
 
     # ---- one case alone --------------------------------------------------------------------------------------------
-    def single(self, unit, np, layout, case, seen, expected=None):
+    def single(self, unit, np, layout, case, seen):
         """Runs one case alone. Returns 'ok', 'refused', 'failed' or 'inconclusive'."""
         ctx = self.ctx
         res = execute(self.env, unit, np, layout, [case], timeout=ISOLATED_WATCHDOG)
         ctx.count("single_case_runs")
         if res.timed_out:
-            ctx.inconclusive("watchdog on a single case of %s/%s" % (unit[0], unit[1]))
+            ctx.inconclusive("watchdog on a single case of %s" % uname(unit))
             return "inconclusive"
         p = parse(res, np)
         refused = self.report_bads(unit, np, layout, [case], p, seen)
@@ -257,6 +290,8 @@ class Runner:
         kind = failure_kind(res, p) + ("+at-exit" if p["alldone"] else "")
         ctx.count("runs_not_reaching_end")
         ctx.evaluation()
+        self.note_audit(unit, np, layout, case, True)
+        caselog(unit, np, layout, case, kind)
         ctx.violation(self.key(unit, np, layout, case, kind), self.what(unit, np, layout, case, "%s; %s" % (kind, err_excerpt(res))),
                       self.witness(unit, np, layout, [case]))
         return "failed"
@@ -266,28 +301,7 @@ class Runner:
         # The statement is about the buffers: this is recorded in the evidence but is not a violation of C29.
         self.ctx.count("runs_ending_with_leftover_communications")
         with self.env._lock:
-            self.leftover.add("%s/%s" % (unit[0], unit[1]))
-
-    def split_known(self, unit, np, layout, cases):
-        """Cases whose class is covered by an open known finding of a crashing kind are not left in the main run (every such
-        crash costs two more runs): one representative per finding is run alone (so that the finding is re-found), the
-        others are skipped and counted."""
-        import fnmatch
-        pats = self.known_crash.get("%s/%s" % (unit[0], unit[1]), [])
-        if not pats:
-            return cases, {}
-        main, groups = [], {}
-        for c in cases:
-            hit = None
-            for pat, kind in pats:
-                if fnmatch.fnmatchcase(self.key(unit, np, layout, c, kind), pat):
-                    hit = pat
-                    break
-            if hit is None:
-                main.append(c)
-            else:
-                groups.setdefault(hit, []).append(c)
-        return main, groups
+            self.leftover.add(uname(unit))
 
     def min_failing_prefix(self, unit, np, layout, cases, fails):
         """Smallest prefix of cases for which fails(prefix) (binary search; the whole list is known to fail)."""
@@ -307,22 +321,18 @@ class Runner:
     def evaluate(self, unit, np, layout, cases):
         ctx = self.ctx
         seen = set()
-        todo, groups = self.split_known(unit, np, layout, cases)
-        for pat, grp in sorted(groups.items()):
-            self.single(unit, np, layout, grp[0], seen)
-            ctx.count("cases_skipped_class_of_a_known_crash", len(grp) - 1)
-        for _ in range(MAX_RERUNS):
+        todo = list(cases)
+        for _ in range(MAX_RERUNS if not AUDIT else 400):
             if not todo:
                 return
             res = execute(self.env, unit, np, layout, todo)
             ctx.count("runs")
             if res.timed_out:
-                ctx.inconclusive("smpirun watchdog %s/%s np=%d %s" % (unit[0], unit[1], np, layout))
+                ctx.inconclusive("smpirun watchdog %s np=%d %s" % (uname(unit), np, layout))
                 return
             p = parse(res, np)
             if p["harness"]:
-                from verif import core
-                raise core.HarnessFailure("%s (%s/%s np=%d)" % (p["harness"], unit[0], unit[1], np))
+                raise core.HarnessFailure("%s (%s np=%d)" % (p["harness"], uname(unit), np))
             refused = self.report_bads(unit, np, layout, todo, p, seen)
             kind = None if p["complete"] else failure_kind(res, p)
             if p["alldone"] and kind == "deadlock":
@@ -355,13 +365,17 @@ class Runner:
                     r = execute(self.env, unit, np, layout, prefix)
                     ctx.count("runs")
                     if r.timed_out:
-                        ctx.inconclusive("smpirun watchdog (prefix search) %s/%s np=%d %s" % (unit[0], unit[1], np, layout))
+                        ctx.inconclusive("smpirun watchdog (prefix search) %s np=%d %s" % (uname(unit), np, layout))
                         return None
                     pp = parse(r, np)
                     return not (pp["complete"] or (pp["alldone"] and failure_kind(r, pp) == "deadlock"))
                 upto = [c for c in todo if not cur or c["idx"] <= max(cur)] if not p["alldone"] else todo
-                if upto is not todo and not fails(upto):
-                    upto = todo
+                if upto is not todo:
+                    r0 = fails(upto)
+                    if r0 is None:
+                        return
+                    if not r0:
+                        upto = todo
                 prefix = self.min_failing_prefix(unit, np, layout, upto, fails)
                 if prefix is None:
                     return
@@ -373,8 +387,13 @@ class Runner:
                     r = execute(self.env, unit, np, layout, prefix)
                     ctx.count("runs")
                     pp = parse(r, np)
+                    if pp["complete"] or r.timed_out:
+                        ctx.inconclusive("failure of %s np=%d %s not reproduced by its smallest failing prefix" % (uname(unit), np, layout))
+                        return
                     k2 = failure_kind(r, pp) + ("+at-exit" if pp["alldone"] else "") + ("+seq" if len(prefix) > 1 else "")
                     ctx.count("runs_not_reaching_end")
+                    self.note_audit(unit, np, layout, fcase, True)
+                    caselog(unit, np, layout, fcase, k2)
                     ctx.violation(self.key(unit, np, layout, fcase, k2),
                                   self.what(unit, np, layout, fcase, "%s after %d earlier calls; %s" % (k2, len(prefix) - 1,
                                                                                                      err_excerpt(r))),
@@ -388,37 +407,95 @@ class Runner:
                 ctx.evaluation(len(passed))
                 ctx.count("cases_compared", len(passed))
             before = len(todo)
-            todo = [c for c in todo if (lo is None or c["idx"] >= lo) and (G.case_class(c, np), c["coll"]) != cls]
+            todo = [c for c in todo if (lo is None or c["idx"] >= lo) and
+                    ((G.case_class(c, np), c["coll"]) != cls if not AUDIT else c is not fcase)]
             if fstate == "refused":
                 ctx.count("cases_refused", before - len(todo))
             else:
                 ctx.count("cases_dropped_class_of_a_crash", before - len(todo))
-        ctx.inconclusive("more than %d reruns for %s/%s np=%d %s" % (MAX_RERUNS, unit[0], unit[1], np, layout))
+        ctx.inconclusive("more than %d reruns for %s np=%d %s" % (MAX_RERUNS, uname(unit), np, layout))
+
+    # ---- a job: the main run and the runs of the listed root-cause classes ------------------------------------------
+    def job(self, unit, np, layout, cases):
+        ctx = self.ctx
+        groups, order = {}, []
+        for c in cases:
+            f = F.assign(uname(unit), np, layout, c)
+            if f not in groups:
+                groups[f] = []
+                order.append(f)
+            groups[f].append(c)
+        if None in groups:
+            self.evaluate(unit, np, layout, groups[None])
+        for f in order:
+            if f is None:
+                continue
+            cs = groups[f]
+            ctx.count("cases_in_a_listed_class", len(cs))
+            if f.crash:
+                # one by one: a few representatives (all of them when auditing the table); if the first one passes the
+                # defect is gone (or the predicate is too wide) and the whole class is evaluated normally
+                seen = set()
+                st = self.single(unit, np, layout, cs[0], seen)
+                if st == "ok" and not AUDIT:
+                    self.evaluate(unit, np, layout, cs[1:])
+                    continue
+                reps = cs[1:] if AUDIT else cs[1:(3 if ctx.tier == "thorough" else 1)]
+                for c in reps:
+                    self.single(unit, np, layout, c, seen)
+                ctx.count("cases_skipped_class_of_a_listed_crash", len(cs) - 1 - len(reps))
+            else:
+                cap = len(cs) if (AUDIT or ctx.tier == "thorough") else 40
+                self.evaluate(unit, np, layout, cs[:cap])
+                ctx.count("cases_skipped_listed_class_over_quick_cap", len(cs) - min(cap, len(cs)))
+
+    def directed(self, units_by_name):
+        """The minimal witness of every listed root cause, whatever the seed."""
+        jobs = []
+        for f in F.FINDINGS:
+            for u in f.units:
+                w = f.witness_for(u)
+                if w is not None and u in units_by_name:
+                    jobs.append((f, units_by_name[u], w))
+
+        def one(j):
+            f, unit, (np, layout, cases) = j
+            before = dict(self.ctx.known_hits)
+            nv = len(self.ctx.violations)
+            if len(cases) == 1:
+                self.single(unit, np, layout, cases[0], set())
+            else:
+                self.evaluate(unit, np, layout, cases)
+            self.ctx.count("directed_witness_runs")
+        self.ctx.pmap(one, jobs)
+        return len(jobs)
 
 
-def configs_for(ctx):
-    if ctx.tier == "quick":
-        return list(QUICK_CONFIGS)
-    out = []
-    for np in range(1, 18):
-        out.append((np, "flat"))
-        if np >= 2:
-            out += [(np, "blk2"), (np, "rev")]
-        if np >= 3:
-            out += [(np, "cyc%d" % (2 + np % 2)), (np, "blk4")]
-    return out
+def cases_for(ctx, unit, np, layout):
+    rng = ctx.sub_rng(unit[0], unit[1], np, layout)
+    cases = []
+    for call in unit[2]:
+        cases += G.gen_cases(call, unit[3], np, rng, ctx.tier, limit=(G.QUICK_CASES if ctx.tier == "quick" else G.THOROUGH_CASES))
+    return G._number(cases)
 
 
 def jobs_for(ctx, env):
     units = all_units(env)
     only = os.environ.get("C29_ONLY")
     if only:
-        units = [u for u in units if re.fullmatch(only, "%s/%s" % (u[0], u[1]))]
-    cfgs = configs_for(ctx)
+        units = [u for u in units if re.fullmatch(only, uname(u))]
     onp = os.environ.get("C29_NP")
-    if onp:
-        cfgs = [(int(x.split(":")[0]), x.split(":")[1]) for x in onp.split(",")]
-    jobs = [(u, np, lay) for u in units for (np, lay) in cfgs]
+    fixed = [(int(x.split(":")[0]), x.split(":")[1]) for x in onp.split(",")] if onp else None
+    jobs = []
+    for u in units:
+        if fixed:
+            cfgs = fixed
+        elif ctx.tier == "quick":
+            cfgs = G.quick_configs(ctx.sub_rng("cfg", u[0], u[1]))
+        else:
+            cfgs = G.thorough_configs()
+        jobs += [(u, np, lay) for (np, lay) in cfgs]
+    total = len(units) * len(G.thorough_configs())
     sc = float(os.environ.get("VERIF_SCALE", "1"))
     if sc < 1:
         r = ctx.sub_rng("scale")
@@ -426,15 +503,7 @@ def jobs_for(ctx, env):
         jobs = r.sample(jobs, keep)
     # big communicators first: better packing of the thread pool
     jobs.sort(key=lambda j: -j[1])
-    return units, jobs
-
-
-def cases_for(ctx, unit, np, layout):
-    rng = ctx.sub_rng(unit[0], unit[1], np, layout)
-    cases = []
-    for call in unit[2]:
-        cases += G.gen_cases(call, unit[3], np, rng, ctx.tier)
-    return G._number(cases)
+    return units, jobs, total
 
 
 def _keylog(ctx):
@@ -456,20 +525,26 @@ def run(ctx):
     env = Env()
     _keylog(ctx)
     try:
-        units, jobs = jobs_for(ctx, env)
+        units, jobs, total = jobs_for(ctx, env)
         ctx.count("algorithm_pairs", len(units))
         runner = Runner(ctx, env)
+        if not os.environ.get("C29_NO_DIRECTED"):
+            runner.directed({uname(u): u for u in units})
 
         def one(job):
             unit, np, layout = job
             cases = cases_for(ctx, unit, np, layout)
-            runner.evaluate(unit, np, layout, cases)
+            runner.job(unit, np, layout, cases)
             if np > 1:
-                ctx.sample({"unit": "%s/%s" % (unit[0], unit[1]), "np": np, "layout": layout, "cases": len(cases),
+                ctx.sample({"unit": uname(unit), "np": np, "layout": layout, "cases": len(cases),
                             "first": G.case_line(cases[0])})
         ctx.pmap(one, jobs)
+        ctx.extra["matrix"] = {"algorithm_pairs": len(units), "configurations_per_pair_in_the_thorough_matrix": len(G.thorough_configs()),
+                               "jobs_of_this_run": len(jobs), "share_of_the_matrix": round(len(jobs) / max(1, total), 4)}
         if runner.leftover:
             ctx.extra["units_leaving_communications_behind"] = sorted(runner.leftover)
+        if AUDIT:
+            ctx.extra["findings_audit"] = runner.audit
     finally:
         env.close()
 
@@ -479,14 +554,9 @@ def replay(ctx, w):
     try:
         unit = (w["unit"][0], w["unit"][1], w["calls"], w["variant"])
         runner = Runner(ctx, env)
-
-        def parse_line(l):
-            f = l.split()
-            return dict(idx=int(f[0]), coll=f[1], mode=f[2], root=int(f[3]), pat=int(f[4]), c=int(f[5]), dt=f[6], op=f[7],
-                        vseed=int(f[8]), late=int(f[9]))
-        cases = [parse_line(l) for l in w["cases"]]
+        cases = [G.parse_case(l) for l in w["cases"]]
         runner.evaluate(unit, w["np"], w["layout"], cases)
         if not ctx.violations and not ctx.known_hits and w.get("context"):
-            runner.evaluate(unit, w["np"], w["layout"], [parse_line(l) for l in w["context"]])
+            runner.evaluate(unit, w["np"], w["layout"], [G.parse_case(l) for l in w["context"]])
     finally:
         env.close()
